@@ -387,3 +387,12 @@ class Flyer(Dev):
 
     def stop(self, success=True):
         self.lab.device_call(self, "stop")
+
+
+class AsyncStopMotor(Motor):
+    """Motor whose stop() is a coroutine that really yields to the event loop."""
+
+    async def stop(self, success=True):
+        self.lab.device_call(self, "stop")
+        await asyncio.sleep(0)
+        await asyncio.sleep(0)
